@@ -829,7 +829,10 @@ static void enumerate_c07(void)
 					     "{\"keys\":[{\"kty\":\"oct\",\"k\":\"AAAA\",\"keys\":[]},{\"kty\":\"oct\",\"k\":\"AAAA\",\"kid\":\"second\"}]}",
 					     "{\"keys\":[{\"keys\":[{\"kty\":\"oct\",\"k\":\"AAAA\"},{\"kty\":\"oct\",\"k\":\"AAAA\"}]}]}",
 					     "{\"keys\":[{\"kty\":\"oct\",\"k\":\"AAAA\",\"keys\":[{\"kty\":\"oct\",\"k\":\"BBBB\"}]}]}",
-					     "{\"kty\":\"oct\",\"k\":\"AAAA\",\"keys\":null}", "{\"keys\":null}", "{\"keys\":5,\"kty\":\"oct\",\"k\":\"AAAA\"}" };
+					     "{\"kty\":\"oct\",\"k\":\"AAAA\",\"keys\":null}", "{\"keys\":null}", "{\"keys\":5,\"kty\":\"oct\",\"k\":\"AAAA\"}",
+					     /* text that does not parse and whose offending token, quoted back by the JSON parser in its error text, holds printf
+					      * conversions: the message is data, never a format */
+					     "\"%s%s%s%s", "\"%n%n%n%n", "\"%d%d%d%d", "\"100%x", "%s%s%s%s", "[%s%s%s%s]", "{\"%s%s%s%s\":%n}", "{\"kty\":\"%s%s%s%s" };
 		for (unsigned i = 0; i < sizeof odd / sizeof *odd; i++)
 			if (vf_case("odd document %s", vf_esc(odd[i])))
 				c07_case_doc(odd[i], strlen(odd[i]), EP_ALL, 1);
